@@ -11,7 +11,7 @@ TOL = 1e-10
 
 
 def pick_problem(rng, Lmin=1, Lmax=7, maxdim=512):
-    src = str(rng.choice(['model', 'model', 'hermitian-random', 'hermitian-charge-free', 'nn-pattern']))
+    src = str(rng.choice(['model', 'model', 'hermitian-random', 'hermitian-charge-free', 'nn-pattern', 'hermitian-funnel']))
     if src == 'nn-pattern':
         # hand-built nearest-neighbour Hamiltonian with site-dependent parameter patterns (staggered, impurity, period 3, blocks, ...)
         d = int(rng.choice([2, 2, 3]))
@@ -42,7 +42,11 @@ def pick_problem(rng, Lmin=1, Lmax=7, maxdim=512):
             qd = rng.integers(-1, 2, size=d)
         else:
             qd = np.zeros(d, dtype=int)
-        H = gen.rand_hermitian_mpo(rng, qd, L, Dmax=2)
+        if src == 'hermitian-funnel':
+            # operator bonds that vary strongly along the chain (a bond larger than d^2 times its neighbour, interior bonds of dimension 2)
+            H = gen.funnel_hermitian_mpo(rng, d, L, cplx=bool(rng.random() < 0.8))
+        else:
+            H = gen.rand_hermitian_mpo(rng, qd, L, Dmax=2)
         label = src
     prof = str(rng.choice(['random', 'random', 'max', 'over', 'one']))
     if rng.random() < 0.12 and len(H.qd) ** L <= 256:
